@@ -265,6 +265,7 @@ func c20CodecEnumerate(sh *evidence.Shard) {
 	}
 	p.Bounds = map[string]any{"cases": len(types) * 1025 * 3}
 	var item int64
+	viol := 0
 	for _, typ := range types {
 		for pad := 0; pad <= 1024; pad++ {
 			for mi := 0; mi < 3; mi++ {
@@ -287,6 +288,11 @@ func c20CodecEnumerate(sh *evidence.Shard) {
 				if id != "" {
 					cc := *c
 					sh.Violate(p.Name, fmt.Sprintf("codec/%s/type=%d,pad=%d,meta=%d", id, typ, pad, mi), id+": "+detail, &cc)
+					if viol++; viol >= 4 {
+						p.Exhaustive = false
+						p.Note("stopped after 4 violations in this shard (type %d pad %d)", typ, pad)
+						return
+					}
 				}
 				if typ == 0x01 || typ == 0x02 {
 					p.Count("real_decodes", int64(3+3+264*3+15))
